@@ -44,28 +44,37 @@ pub assume_specification[ usize::abs_diff ](a: usize, b: usize) -> (r: usize)
 
 // ---- assertions ----------------------------------------------------------------------------
 /// debug_assert!(c): evaluated in exec mode; *proof obligation* that it can never fire (R6)
-pub fn rt_debug_assert(b: bool) requires b {}
+pub fn rt_debug_assert(b: bool)
+    requires b,   // @ob C09 debug_assert.never_fires
+{}
 /// assert!(c): may panic; afterwards c holds (R6)
 #[verifier::external_body]
 pub fn rt_assert(b: bool) ensures b { assert!(b) }
 /// core::hint::unreachable_unchecked(): UB if reached => obligation `false`
 #[verifier::external_body]
-pub fn unreachable_unchecked<T>() -> T requires false { unreachable!() }
+pub fn unreachable_unchecked<T>() -> T
+    requires false,   // @ob C09,C01 unreachable_unchecked.unreachable
+{ unreachable!() }
 
 // ---- pointers as addresses (R1/R2/R7) ------------------------------------------------------
-pub fn ptr_add(p: usize, n: usize) -> (r: usize) requires p + n <= usize::MAX ensures r == p + n { p + n }
+pub fn ptr_add(p: usize, n: usize) -> (r: usize)
+    requires p + n <= usize::MAX,   // @ob C01,C09,C19 ptr_add.no_wrap
+    ensures r == p + n
+{ p + n }
 pub fn ptr_is_null(p: usize) -> (r: bool) ensures r == (p == 0) { p == 0 }
 pub fn nonnull_new(p: usize) -> (r: Option<usize>)
     ensures r == (if p == 0 { None::<usize> } else { Some(p) })
 { if p == 0 { None } else { Some(p) } }
 pub fn ptr_offset_from(a: usize, b: usize) -> (r: usize)
-    requires b <= a, a - b <= isize::MAX as usize ensures r == a - b { a - b }
+    requires b <= a, a - b <= isize::MAX as usize,   // @ob C10,C01 offset_from.in_same_block
+    ensures r == a - b
+{ a - b }
 /// ptr::copy_nonoverlapping(src, dst, n): std's safety condition on the two address ranges
 pub fn copy_nonoverlapping_shim(src: usize, dst: usize, n: usize)
     requires
         src as int + n as int <= usize::MAX as int,
         dst as int + n as int <= usize::MAX as int,
-        (src as int + n as int <= dst as int) || (dst as int + n as int <= src as int) || n == 0,
+        (src as int + n as int <= dst as int) || (dst as int + n as int <= src as int) || n == 0,   // @ob C02,C12 copy_nonoverlapping.ranges_disjoint
 {}
 /// ptr::copy(src, dst, n) (memmove): ranges must be addressable, may overlap
 pub fn copy_shim(src: usize, dst: usize, n: usize)
@@ -235,7 +244,9 @@ pub struct AllocErr;
 pub fn oom<T>() -> T ensures false { panic!("out of memory") }
 /// the panic inside new_chunk_memory_details sits on the path of the try_ methods: must be unreachable
 #[verifier::external_body]
-pub fn allocation_size_overflow<T>() -> T requires false { panic!("requested allocation size overflowed") }
+pub fn allocation_size_overflow<T>() -> T
+    requires false,   // @ob C09,C19 allocation_size_overflow.unreachable_on_try_paths
+{ panic!("requested allocation size overflowed") }
 
 // ---- std Result/Option combinators missing from vstd (assumed specs, modelled on vstd's Option specs) ----
 pub assume_specification<T, E, F: FnOnce(E) -> T>[ Result::<T, E>::unwrap_or_else ](r: Result<T, E>, f: F) -> (t: T)
